@@ -74,9 +74,13 @@ fn take_last_error() -> Option<Box<dyn Error>> {
 #[no_mangle]
 pub unsafe extern "C" fn last_error_message() -> *const c_char {
     match take_last_error() {
-        Some(err) => CString::new(err.to_string().as_bytes())
-            .expect("Invalid Str")
-            .into_raw(),
+        Some(err) => {
+            // The message can quote input text that has a NUL char, which a C string can't hold
+            match CString::new(err.to_string().replace('\0', " ")) {
+                Ok(msg) => msg.into_raw(),
+                Err(_) => std::ptr::null(),
+            }
+        }
         None => std::ptr::null(),
     }
 }
